@@ -726,3 +726,123 @@ class W1Monitor:
             for key, op in self.pending.items():
                 v.append(("C04", "call-hangs-after-termination", f"{key[0]}-side {key[3]} on stream {key[1]} never returned after the tunnel ended (`{op}`)"))
         return v
+
+
+def parse_life(line):
+    m = re.match(r"last=(\S+) state=(\d) inst=(\d+) gstop=(\S+) stop=(\S+) serves=\[(.*?)\] holds=\[(.*?)\] all=\[(.*?)\]$", line)
+    if not m:
+        return None
+    serves = {}
+    for s in m.group(6).split():
+        p = s.split(":", 2)
+        serves[int(p[0])] = p[1:] if len(p) > 1 else []
+    holds = {}
+    for h in m.group(7).split():
+        hid, rest = h.split("@", 1)
+        tid, kind, rest2 = rest.split(":", 2)
+        res, _, hctx = rest2.rpartition(":")
+        holds[int(hid)] = {"tid": int(tid), "kind": kind, "res": res, "hctx": hctx}
+    allr = [int(x) for x in m.group(8).split(",") if x]
+    return {"last": m.group(1), "state": int(m.group(2)), "inst": int(m.group(3)), "gstop": m.group(4),
+            "stop": m.group(5), "serves": serves, "holds": holds, "all": allr}
+
+
+class LifecycleMonitor:
+    """C10 (GracefulStop / Stop / Serve) and C04 (termination reaches both ends) on the public API."""
+
+    def __init__(self):
+        self.reset()
+
+    def reset(self):
+        self.fc = True
+        self.gstop_at = None
+        self.stop_issued = False
+        self.step = 0
+        self.before_shutdown = set()    # holds started before shutdown began
+        self.hung = set()               # tunnels hung up by the peer
+        self.finished_normally = set()
+
+    def feed(self, op, line):
+        v = []
+        if op.startswith("l.init"):
+            self.reset()
+            self.fc = kvs(op).get("fc") == "1"
+        o = parse_life(line)
+        if o is None:
+            return v
+        self.step += 1
+        k = kvs(op)
+        name = op.split()[0]
+        shutting = self.gstop_at is not None or self.stop_issued
+        if name == "l.hold":
+            hid = int(k["h"])
+            if shutting:
+                # C10: refused with Unavailable
+                h = o["holds"].get(hid)
+                if o["last"] == "new:ok" and (h is None or h["res"] != "status:14"):
+                    v.append(("C10", "rpc-accepted-during-shutdown", f"RPC started after shutdown began was not refused with Unavailable: {h}"))
+            else:
+                self.before_shutdown.add(hid)
+        if name == "l.rpc":
+            if shutting and int(k["t"]) in o["serves"] and o["serves"][int(k["t"])][:1] == ["run"] and o["last"] != "rpc:status:14":
+                v.append(("C10", "rpc-accepted-during-shutdown", f"unary RPC after shutdown began: {o['last']}"))
+            if not shutting and int(k["t"]) not in self.hung and o["last"] != "rpc:ok":
+                v.append(("C10", "rpc-fails-before-shutdown", f"unary RPC on an open tunnel failed: {o['last']}"))
+        if name == "l.gstop":
+            self.gstop_at = self.step
+        if name == "l.stop":
+            self.stop_issued = True
+        if name == "l.hangup":
+            self.hung.add(int(k["t"]))
+        if name == "l.finish":
+            self.finished_normally.add(int(k["h"]))
+            h = o["holds"].get(int(k["h"]))
+            # C10: an RPC in flight when shutdown began runs to completion with the outcome it would have had
+            if h and h["res"] not in ("eof",) and h["tid"] not in self.hung and not self.stop_issued and h["res"] != "status:14":
+                v.append(("C10", "in-flight-rpc-disturbed", f"hold {k['h']} finished with {h['res']} instead of OK"))
+        if name == "l.serve" and shutting:
+            t = int(k["t"])
+            if o["serves"].get(t) != ["ret", "0:status:14"]:
+                v.append(("C10", "serve-not-refused", f"Serve after shutdown began: {o['serves'].get(t)}"))
+        running = [t for t, s in o["serves"].items() if s[:1] == ["run"]]
+        # ---- safety: GracefulStop / Stop return only after every Serve call has returned ----
+        if o["gstop"] == "returned" and running:
+            v.append(("C10", "graceful-stop-returned-early", f"GracefulStop returned while Serve calls {running} are running"))
+        if o["stop"] == "returned":
+            if running:
+                v.append(("C10", "stop-returned-early", f"Stop returned while Serve calls {running} are running"))
+            for hid, h in o["holds"].items():
+                if h["res"] == "open" or (h["hctx"] != "ctxdone" and h["res"] not in ("eof", "status:14") and hid not in self.finished_normally):
+                    v.append(("C10", "stop-left-handler-running", f"Stop returned but hold {hid} is {h}"))
+        # ---- liveness at quiescence ----
+        open_holds = [hid for hid, h in o["holds"].items() if h["res"] == "open"]
+        if o["gstop"] == "blocked" and not open_holds and not self.stop_issued:
+            # every in-flight RPC has finished, yet GracefulStop has not returned
+            v.append(("C10", "graceful-stop-waits-for-idle-tunnels", f"GracefulStop still blocked with no RPC in flight (tunnels {running} idle)"))
+        if o["stop"] == "blocked":
+            key = "stop-hangs-revision-zero" if not self.fc else "stop-hangs"
+            v.append(("C04", key, f"Stop has not returned at quiescence: serves {o['serves']} holds {o['holds']}"))
+            v.append(("C10", key, f"Stop has not returned at quiescence: serves {o['serves']} holds {o['holds']}"))
+        # ---- C04: a tunnel that ended is gone everywhere ----
+        for t in self.hung:
+            if t in o["all"]:
+                v.append(("C04", "closed-tunnel-still-registered", f"tunnel {t} was hung up but is still reachable through the registry"))
+            if o["serves"].get(t, ["ret"])[:1] == ["run"] and (self.fc or not any(h["kind"] == "stuck" and h["tid"] == t for h in o["holds"].values())):
+                v.append(("C04", "serve-did-not-return", f"tunnel {t} was hung up by the peer but Serve is still running"))
+            for hid, h in o["holds"].items():
+                if h["tid"] == t and h["res"] == "open":
+                    v.append(("C04", "call-hangs-after-termination", f"hold {hid} on the closed tunnel {t} is still open"))
+        return v
+
+
+class NullMonitor:
+    """worlds whose specification is the model line itself (full-line comparison)"""
+
+    def feed(self, op, line):
+        v = []
+        if "!WRONG-CHANNEL" in line:
+            v.append(("C17", "wrong-channel-reported", f"WithTunnelChannel reported another tunnel than the one that served: {line[:160]}"))
+            v.append(("C12", "wrong-channel-reported", f"WithTunnelChannel reported another tunnel than the one that served: {line[:160]}"))
+        if "!BAD-CONTEXT" in line:
+            v.append(("C17", "handler-context-wrong", f"handler context does not carry the tunnel's opening metadata / request metadata, or a returned copy was shared: {line[:200]}"))
+        return v
